@@ -399,6 +399,8 @@ class Run:
             kw = {}
             if op.get("is_async") is not None:
                 kw["is_async"] = op["is_async"]
+            if op.get("mc") is not None:
+                kw["max_concurrency"] = op["mc"]
             comp = d.compose(op["as"], ins, outs, **kw)
             self.instances[op["as"]] = comp
             self.inst_table[op["as"]] = self.inst_table[inst]
